@@ -145,15 +145,17 @@ def never_ran(p):
 def derive_hints(p, alt=0):
     """the dequeue oracle of the model, read off the implementation's trace: one hint per successful general dequeue
     (a wrapper start whose thread's previous step is a help / worker point): the task id when the body then runs.  When the wrapper skips
-    the body (set cancelled) the task it took is not observable; it is one of the set's tasks whose body never ran: the alt-th rotation of
-    those (alt = 0: oldest first; run_lockstep tries further rotations before it calls a disagreement), else -(set+1) = "oldest of the set"."""
+    the body (set cancelled) the task it took is not observable: alt = 0 says -(set+1) = "the oldest queued task of that set"; alt >= 1 names
+    one of the set's submitted tasks whose body never ran (oldest first, then rotations); run_lockstep tries these before it calls a
+    disagreement (a named task that was never enqueued -- e.g. a bulk submission refused because the set was cancelled -- makes the
+    model fall back to the oldest task overall, which is why alt = 0 stays the first choice)."""
     steps = p['steps']
-    skipped = {k: list(v) for k, v in never_ran(p).items()}
+    skipped = {k: list(v) for k, v in never_ran(p).items()} if alt else {}      # alt = 0: "the oldest task of that set"
     for k in skipped:
-        if skipped[k] and alt:
-            a = alt % len(skipped[k])
+        if skipped[k] and alt > 1:
+            a = (alt - 1) % len(skipped[k])
             skipped[k] = skipped[k][a:] + skipped[k][:a]
-            if alt >= len(skipped[k]):
+            if alt - 1 >= len(skipped[k]):
                 skipped[k].reverse()
     per_thread = {}
     for i, (t, code) in enumerate(steps):
@@ -514,7 +516,7 @@ def run_lockstep(ctx, exe, cases, judge, timeout=900):
     verdicts = list(verdicts)
     amb = [i for i, ((c, p, o), v) in enumerate(zip(kept, verdicts)) if v == 1 and skipped_dequeues(p) > 0]
     if amb:
-        alts = [(i, a) for i in amb[:40] for a in range(1, 9)]
+        alts = [(i, a) for i in amb[:40] for a in range(1, 10)]
         v2 = judge_parallel(ctx, IMPORTS, judge, [case_term(kept[i][0], kept[i][1], a) for i, a in alts], shard_size=60)
         if v2 is not None:
             for (i, a), v in zip(alts, v2):
